@@ -418,7 +418,11 @@ func (o onlyReader) Read(p []byte) (int, error) { return o.r.Read(p) }
 // interfaces for which libraries keep fast paths). buffered reports that the
 // wrapper may take more from the stream than its consumer asked for.
 func (c *Ctx) WrapSource(label string, sr *SimReader) (r io.Reader, buffered bool) {
-	switch c.Pick(label+".sourceType", 5) {
+	kind := c.Pick(label+".sourceType", 4)
+	if c.Chance(label+".fileSource", 1, 40) { // (real files are slow: kept rare)
+		kind = 4
+	}
+	switch kind {
 	case 4:
 		// a real *os.File positioned behind other data in the same file (an artifact stored
 		// inside a container): only for fault-free delivery plans, whose faults a real file
